@@ -7,6 +7,7 @@ COQ = os.path.join(VERIF, "coq")
 OCAML = os.path.join(VERIF, "ocaml")
 EVID = os.environ.get("VERIF_EVID", os.path.join(VERIF, "evidence"))
 REPLAYS = os.path.join(EVID, "replays")
+PROPERTY_FILES = ["Properties", "Properties2"]
 FORBIDDEN = r"\bAdmitted\b|\badmit\b|\bAxiom\b|\bParameter\b|\bConjecture\b|Unset Guard|bypass_check|type-in-type|impredicative-set|Admit Obligations"
 
 TRUSTED_BASE = [
@@ -55,15 +56,18 @@ def ensure_built(clean=False):
         st["ok"] = False
         st["errors"].append("coq build failed: " + (r.stdout + r.stderr)[-1500:])
         return st
-    plog = os.path.join(COQ, "properties.log")
     vos = glob.glob(os.path.join(COQ, "*.vo"))
-    if not newer(plog, vos + coq_sources()):
-        r = run(["timeout", "900", "coqc", "-Q", ".", "GB", "Properties.v"], cwd=COQ)
-        open(plog, "w").write(r.stdout + r.stderr)
-        if r.returncode != 0:
-            st["ok"] = False
-            st["errors"].append("Properties.v does not compile: " + (r.stdout + r.stderr)[-1500:])
-            return st
+    for pf in PROPERTY_FILES:
+        if not os.path.exists(os.path.join(COQ, pf + ".v")):
+            continue
+        plog = os.path.join(COQ, pf.lower() + ".log")
+        if not newer(plog, vos + coq_sources()):
+            r = run(["timeout", "1800", "coqc", "-Q", ".", "GB", pf + ".v"], cwd=COQ)
+            open(plog, "w").write(r.stdout + r.stderr)
+            if r.returncode != 0:
+                st["ok"] = False
+                st["errors"].append("%s.v does not compile: %s" % (pf, (r.stdout + r.stderr)[-1500:]))
+                return st
     # extraction + drivers
     for (extract_v, ml, drivers) in (("Extract.v", "gbmodel", ["seqdriver", "orderdriver"]), ("ExtractConc.v", "gbconc", ["concdriver"])):
         ev = os.path.join(COQ, extract_v)
@@ -106,13 +110,19 @@ def obligations(pid):
     """Returns (names, discharged_names, problems) for the theorems OBLIGATIONS.json lists under pid."""
     ob = json.load(open(os.path.join(COQ, "OBLIGATIONS.json")))
     names = ob.get(pid, {}).get("theorems", [])
-    src = open(os.path.join(COQ, "Properties.v")).read()
-    plog_path = os.path.join(COQ, "properties.log")
-    plog = open(plog_path).read() if os.path.exists(plog_path) else ""
-    printed = re.findall(r"Print Assumptions\s+([A-Za-z0-9_']+)\s*\.", re.sub(r"\(\*.*?\*\)", "", src, flags=re.S))
-    # outputs, in order: either "Closed under the global context" or "Axioms:" blocks
-    outs = re.findall(r"Closed under the global context|Axioms:", plog)
-    status = dict(zip(printed, outs)) if len(outs) == len(printed) else {}
+    src, status = "", {}
+    for pf in PROPERTY_FILES:
+        vp = os.path.join(COQ, pf + ".v")
+        if not os.path.exists(vp):
+            continue
+        one = open(vp).read()
+        src += one + "\n"
+        plog_path = os.path.join(COQ, pf.lower() + ".log")
+        plog = open(plog_path).read() if os.path.exists(plog_path) else ""
+        printed = re.findall(r"Print Assumptions\s+([A-Za-z0-9_']+)\s*\.", re.sub(r"\(\*.*?\*\)", "", one, flags=re.S))
+        outs = re.findall(r"Closed under the global context|Axioms:", plog)
+        if len(outs) == len(printed):
+            status.update(dict(zip(printed, outs)))
     problems, done = [], []
     for n in names:
         if not re.search(r"(Theorem|Lemma|Corollary)\s+%s\b" % re.escape(n), src):
@@ -185,7 +195,7 @@ def coqchk(run_if_missing=False):
     if not run_if_missing:
         return {"status": "not-run"}
     t0 = time.time()
-    r = run(["timeout", "7200", "coqchk", "-silent", "-o", "-Q", ".", "GB", "GB.Properties"], cwd=COQ)
+    r = run(["timeout", "7200", "coqchk", "-silent", "-o", "-Q", ".", "GB", "GB.Properties", "GB.Properties2"], cwd=COQ)
     out = r.stdout + r.stderr
     axioms = []
     m = re.search(r"\* Axioms:\s*(.*?)(?:\n\*|\Z)", out, flags=re.S)
